@@ -1454,7 +1454,7 @@ def extra_checks(rng, tier, cov):
     cov['groupby_nested_checks'] = gc
 
 
-LEVEL_TEXT = ('Machine-checked Coq theorems (54, all closed under the global context) over an executable model of cane.match / BioMatch.span / '
+LEVEL_TEXT = ('Machine-checked Coq theorems (55, all closed under the global context) over an executable model of cane.match / BioMatch.span / '
               'BioMatchList.groupby / BioSeq and BioBasket match/matchall. Word patterns (start, stop, "|"-separated words over letters and "."): every reported match has its span inside the sequence at a column >= start, its group is '
               'the text of the span (backward: of the span on the reverse complement = reversed per-character complement of the mirrored forward '
               'span), the group is an occurrence of a word of the pattern with gap characters tolerated between letters (degapped group = word '
@@ -1465,13 +1465,13 @@ LEVEL_TEXT = ('Machine-checked Coq theorems (54, all closed under the global con
               'is proved sound and complete w.r.t. a declarative relation, finditer leftmost-complete, and for plain prefix-free words without proper overlap (start, stop) every occurrence is reported exactly once; ordered alternation reports the first word that occurs; no word occurs outside the reported spans; span bounds; the start offset in forward coordinates for backward frames; empty results; rf forms count only through membership; basket wrappers element-wise. '
               'The gap argument is a character SET throughout (model, relation irel, residues, theorems): "[gap]*" is the class of the characters of the gap string and '
               '"nt in gap" is membership; the backward-count theorem uses a regenerated-table fact for the gap symbols "-", ".", "~". '
-              'Round 7, the pattern language (coq/model/C13_Rx.v, 18 theorems): simple regexes are syntax trees (literal characters, ".", classes and negated classes over letters, '
+              'Round 7, the pattern language (coq/model/C13_Rx.v, 19 theorems): simple regexes are syntax trees (literal characters, ".", classes and negated classes over letters, '
               'concatenation, ordered alternation, greedy * + ? on atoms that consume, capturing and non-capturing groups; the pattern must not match the empty string) with a printer to the pattern text and a backtracking matcher with CPython priorities. '
               'rx_rewrite_text_is_tree: the gap rewriting of cane.py:217-223 (re.findall units of the pattern text, a class "[...]" being one letter unit since fix 7e33c72; modelled with its backtracking corner cases) applied to the text of a tree is the text of the tree-level rewriting (gap class between two neighbours of a concatenation that end / begin with a letter, "." or a class), for all trees of the subset; '
               'rx_matcher_sound (only prefixes in the language of the pattern are reported); rx_gap_meaning (what the rewritten pattern matches is, degapped, matched by the original pattern, for patterns without ".", negated classes and gap characters; what the original matches is still matched), unbounded, by induction over trees and derivations; '
               'rx_matchall_sound (span, text, language membership, requested frame = residue count mod 3, both strands, for every tree), rx_order, rx_match_is_head (for any matcher), words_are_an_instance (the word model is the instance "ordered alternation of compiled words" of the generic pipeline); '
               'span_mirror (BioMatch.span mirroring is an involution that keeps bounds and length); groupby_partition (groupby("rf"): keys = distinct frames in first-occurrence order, groups = order-preserving sub-lists, none empty, every match in its group); '
-              'word_matcher_is_tree_matcher and matchall_words_tree (the word matcher of the earlier rounds IS the tree matcher on the tree of the word list, with and without gap tolerance, so start / stop / codon lists are instances of the tree pipeline and every rx_ theorem applies to them); rx_group_degapped (the property sentence on gap tolerance for trees whose characters are residues: every reported group, degapped, is matched by the ORIGINAL pattern); rx_reported (nothing requested is lost, for any matcher), rx_matcher_complete and rx_occurrence_covered (the tree matcher finds a match wherever a string of the language begins; no occurrence outside the reported spans), class_is_alternation; rf_decision_table (None / int / bool / fwd,bwd,both / other strings -> AssertionError / collections / non-iterables -> TypeError) and rf_strands. '
+              'word_matcher_is_tree_matcher and matchall_words_tree (the word matcher of the earlier rounds IS the tree matcher on the tree of the word list, with and without gap tolerance, so start / stop / codon lists are instances of the tree pipeline and every rx_ theorem applies to them); rx_group_degapped (the property sentence on gap tolerance for trees whose characters are residues: every reported group, degapped, is matched by the ORIGINAL pattern); rx_reported (nothing requested is lost, for any matcher), rx_matcher_complete and rx_occurrence_covered (the tree matcher finds a match wherever a string of the language begins; no occurrence outside the reported spans), class_is_alternation, token_word_language (for concatenations of letters, ".", classes and negated classes a string is matched iff it has exactly one character per token, each matched by its token: the length of a group is the number of tokens, not the length of the pattern text); rf_decision_table (None / int / bool / fwd,bwd,both / other strings -> AssertionError / collections / non-iterables -> TypeError) and rf_strands. '
               'GAP TRANSPARENCY (unbounded, 4 theorems): for plain words (start, stop, literal codons) gap_transparent_finditer: finditer of the gap-tolerant pattern on the gapped text, spans translated through the residue numbering, IS finditer of the plain pattern on the degapped text; gap_bijection: degapped text of a span = text of the translated span, rc and degap commute, the residue numberings of the two strands are mirror images; gap_transparent_matchall: matchall(gap=g) on the gapped sequence, translated, = matchall(gap=None) on the degapped sequence, both strands, every rf form, start 0; gap_transparent_start: the same strand by strand for every start offset, the offset being translated by the residue numbering of the strand it counts on (all of this is also checked on the real code by a relational stream). END-TO-END COMPLETENESS (rebuilt from round 6): fwd_occurrence_reported / bwd_occurrence_reported: for start/stop-like word lists every occurrence at a column >= start whose residue-count frame is requested is an element of the result with its own extent, text and frame. '
               'The models are tied to sugar and to CPython re by differential testing on every run (the pattern text handed to re, BioMatch.re.pattern, is recorded in the histogram but deliberately not compared: it is no property observable) plus first-principles oracles.')
 LEVEL_NOTE = ('Trusted: Coq kernel/vm_compute, tools/gen_data.py (COMPLEMENT tables, via the C05 model), the correspondence harness, CPython re/bisect/'
